@@ -122,8 +122,9 @@ Proof.
     unfold vres_to_res. destruct (validate c (mt s4)); try discriminate.
     intros H. injection H as <-. exists stp, s2, s3. auto.
   - intros H. exfalso. destruct (is_set s_ignore_errors c); [|discriminate].
-    destruct (add_env c stp) as [s1|e1 s1|x1]; [| |discriminate];
-      (destruct (add_defaults c s1) as [s2|e2 s2|x2]; discriminate).
+    destruct (resolve_pending c stp) as [s0|e0 s0|x0]; [| |discriminate];
+      (destruct (add_env c s0) as [s1|e1 s1|x1]; [| |discriminate];
+        (destruct (add_defaults c s1) as [s2|e2 s2|x2]; discriminate)).
 Qed.
 
 Lemma phases_keep s2 s3 st' y e :
